@@ -218,7 +218,13 @@ class ProgGen:
                 return gen_value(rng, s[2])
             if s[0] == "cap":
                 return value(s[2])
-            tail = value(s[2]) if s[2] is not None else b""
+            if s[2] is not None:
+                tail = value(s[2])
+            elif rng.random() < 0.2:
+                # more structure than the pattern names (visible only through an (@ name pat) capture)
+                tail = gen_value(rng, rng.choice(["int", "ilist", "bytes"]))
+            else:
+                tail = b""
             return gen.lst([value(x) for x in s[1]], tail)
 
         return to_tree(shape), types, (lambda: value(shape)), shape
@@ -461,6 +467,12 @@ class ProgGen:
             # build the sub-structure with list/c
             res = tl
             if s[2] is None:
+                if rng.random() < 0.2:
+                    # an argument with more elements than the sub-pattern names
+                    res = L(S("q"), tail=self.datalit([rng.randint(0, 30) for _ in range(rng.randint(1, 2))]))
+                    for it in reversed(items):
+                        res = L(S("c"), it, res)
+                    return res
                 return L(S("list"), *items)
             for it in reversed(items):
                 res = L(S("c"), it, res)
@@ -484,6 +496,18 @@ class ProgGen:
         pat, types, _, shape = self.pattern(rng.randint(1, 4), prefix="A")
         ret = rng.choice(["int", "int", "bytes", "ilist", "any"])
         body = self.expr(Scope(types), ret, rng.randint(1, 3))
+        caps = [n for n, t in types.items() if t == "any" and ("(@ " + n + " ") in text(pat)]
+        if caps and self.has("lets") and not self.classic and rng.random() < 0.5:
+            # a capture name used inside a binding form of the function body (the binding form is
+            # hoisted into a helper whose environment has to be rebuilt from the parameter pattern)
+            self.use("lets")
+            self.use("captures")
+            v = self.fresh("V")
+            kind = rng.choice(["let", "let*", "assign"] if self.has("assign") else ["let", "let*"])
+            e = self.expr(Scope(types), "int", 1)
+            inner = L(S("c"), S(v), L(S("c"), S(rng.choice(caps)), body if ret != "any" or rng.random() < 0.5 else NILT))
+            body = L(S("assign"), S(v), e, inner) if kind == "assign" else L(S(kind), L(L(S(v), e)), inner)
+            ret = "any"
         f = {"name": name, "inline": inline, "ret": ret, "pattern": pat, "shape": shape, "body": body}
         self.fns.append(f)
         return L(S("defun-inline" if inline else "defun"), S(name), pat, body)
